@@ -44,7 +44,7 @@ func checkCmd(args []string) int {
 	corpusDir := filepath.Join(cr.Scratch, "corpus")
 	relevant := map[string][]string{
 		"C02": {"Response", "write"}, "C03": {"router.go"}, "C11": {"router.go"}, "C13": {"router.go", "spec_file.go"}, "C16": {"router.go"}, "C17": {"router.go"},
-		"C04": {"Params", "handler.go"}, "C05": {"Params", "handler.go"}, "C14": {".go"}, "C20": {".go"},
+		"C06": {"components.go"}, "C07": {"components.go"}, "C08": {"components.go"}, "C04": {"Params", "handler.go"}, "C05": {"Params", "handler.go"}, "C14": {".go"}, "C20": {".go"},
 	}
 	if pats, ok := relevant[*prop]; ok {
 		cr.LoadFailureRelevant = func(msg string) bool {
@@ -131,6 +131,15 @@ func checkCmd(args []string) int {
 		}
 		cr.CheckClients(entries)
 		return cr.Finish("proof", checkerCmd, commonTrusted, "one obligation per (Client.<Op> return site, clause): response kind by status code (symbolic status), undocumented codes, default code, raw bodies left open; the status-to-type binding is the one proved on the server side (C02 contracts)")
+	case "C06", "C07", "C08":
+		entries := vc.FixtureCorpus(*repo, "json", "schema_all_of", "nullable", "response_additional_props", "response_additional_props_with_schema", "response_schema_time", "schema_array", "schema_one_of")
+		entries = append(entries, vc.JSONCorpus(*verif)...)
+		if *tier != "quick" {
+			entries = vc.FixtureCorpus(*repo)
+			entries = append(entries, vc.JSONCorpus(*verif)...)
+		}
+		cr.CheckJSON(entries)
+		return cr.Finish("proof", checkerCmd, commonTrusted, "one obligation per (codec function, return site, clause) and per call-site precondition of the emitted MarshalJSON / marshalJSONInnerBody / UnmarshalJSON / unmarshalJSONInnerBody of every schema-derived type of every corpus package; all values / all documents")
 	case "C14":
 		entries := vc.FixtureCorpus(*repo, "get_params", "router", "security_jwt_apikey_query", "response_header", "response_component", "json", "request_body")
 		if *tier != "quick" {
